@@ -48,6 +48,11 @@ def handle : Handler := fun op args impl =>
       if c == "sample" && !ownsData fns r n then some ⟨"shared=1", "na"⟩ else
       some ⟨if ownsData fns r n then good else "shared=1",
             verdictOf (impl == good || impl == "err") "copy-shares-data-with-original"⟩
+  | "aliascodon", [_, _] =>
+    -- CodonAlign: the codon alignment against the set of nucleotide sequences it was threaded from
+    let good := "shared=0 orig-unchanged=1 copy-unchanged=1"
+    some ⟨if ownsData fns "align" "CodonAlign" then good else "shared=1",
+          verdictOf (impl == good || impl == "err") "copy-shares-data-with-original"⟩
   | "aliasappend", _ :: _ :: c :: _ =>
     -- the derived alignment is grown in place (every row appended to): rows must read row ++ row and the source
     -- must be unchanged - what "owns its data" means for an appending mutation (spare capacity included)
